@@ -29,14 +29,14 @@ theorem PS.shift_leaf (s : PS) (code : String) (t : Tok) (h : s.cur.kind ≠ .eo
     tokens not yet shifted it is neither out of fuel nor a panic; it never
     un-shifts, never leaves error state, and unless it ends in error state it
     has shifted at least one token. -/
-theorem parseValue_spec (hl : c.listBreaks = true) : ∀ n s, s.m + 2 ≤ n →
-    (parseValue c n s).Sat (fun s' => PS.Le s s' ∧ (s'.pe.jail = false → s'.m < s.m)) := by
+theorem parseValue_spec (hl : c.listBreaks = true) : ∀ n d s, s.m + 2 ≤ n →
+    (parseValue c n d s).Sat (fun s' => PS.Le s s' ∧ (s'.pe.jail = false → s'.m < s.m)) := by
   intro n
   induction n with
-  | zero => intro s h; omega
+  | zero => intro d s h; omega
   | succ n ih =>
-    intro s hm
-    have hpv : 2 ≤ n → PVSpec (parseValue c n) (n - 2) := fun hn x hx => ih x (by omega)
+    intro d s hm
+    have hpv : 2 ≤ n → PVSpec (parseValue c n (d + 1)) (n - 2) := fun hn x hx => ih (d + 1) x (by omega)
     unfold parseValue
     split
     · rename_i h
@@ -78,28 +78,36 @@ theorem parseValue_spec (hl : c.listBreaks = true) : ∀ n s, s.m + 2 ≤ n →
     split
     · rename_i h
       have hne := PS.seeOp_ne_eof h
-      have h1 := PS.next_le c hmax s
-      have h1lt := PS.next_m_lt c s hne
+      split
+      · refine .ok ⟨PS.errHere_le c hmax _ _, fun hj => ?_⟩
+        simp only [PS.errHere] at hj
+        rw [PS.errAt_jail] at hj; cases hj
+      have h1 := (PS.next_le c hmax s).trans (PS.enter_le (s.next c) (d + 1))
+      have h1lt : ((s.next c).enter (d + 1)).m < s.m := by rw [PS.enter_m]; exact PS.next_m_lt c s hne
       have hpos := PS.m_pos hne
       simp only
-      refine (loopB_sat _ _ (fun x => PS.Le (s.next c) x) (fun x => PS.Le (s.next c) x) PS.m
-        (fun x hx _ => hx) ?_ n (s.next c) (PS.Le.refl _) (by omega)).bind ?_
+      refine (loopB_sat _ _ (fun x => PS.Le ((s.next c).enter (d + 1)) x) (fun x => PS.Le ((s.next c).enter (d + 1)) x) PS.m
+        (fun x hx _ => hx) ?_ n ((s.next c).enter (d + 1)) (PS.Le.refl _) (by omega)).bind ?_
       · intro x hx _
-        exact objBody_sat c hmax _ (n - 2) (hpv (by omega)) (s.next c) x hx (by have := hx.m_le; omega)
+        exact objBody_sat c hmax _ (n - 2) (hpv (by omega)) ((s.next c).enter (d + 1)) x hx (by have := hx.m_le; omega)
       · intro s2 h2
         have h3 := PS.expectOp_le c hmax s2 '}'
         exact .ok ⟨h1.trans (h2.trans h3), fun _ => by have := h2.m_le; have := h3.m_le; omega⟩
     split
     · rename_i h
       have hne := PS.seeOp_ne_eof h
-      have h1 := PS.next_le c hmax s
-      have h1lt := PS.next_m_lt c s hne
+      split
+      · refine .ok ⟨PS.errHere_le c hmax _ _, fun hj => ?_⟩
+        simp only [PS.errHere] at hj
+        rw [PS.errAt_jail] at hj; cases hj
+      have h1 := (PS.next_le c hmax s).trans (PS.enter_le (s.next c) (d + 1))
+      have h1lt : ((s.next c).enter (d + 1)).m < s.m := by rw [PS.enter_m]; exact PS.next_m_lt c s hne
       have hpos := PS.m_pos hne
       simp only
-      refine (loopB_sat _ _ (fun x => PS.Le (s.next c) x) (fun x => PS.Le (s.next c) x) PS.m
-        (fun x hx _ => hx) ?_ n (s.next c) (PS.Le.refl _) (by omega)).bind ?_
+      refine (loopB_sat _ _ (fun x => PS.Le ((s.next c).enter (d + 1)) x) (fun x => PS.Le ((s.next c).enter (d + 1)) x) PS.m
+        (fun x hx _ => hx) ?_ n ((s.next c).enter (d + 1)) (PS.Le.refl _) (by omega)).bind ?_
       · intro x hx _
-        exact listBody_sat c hmax hl _ (n - 2) (hpv (by omega)) (s.next c) x hx (by have := hx.m_le; omega)
+        exact listBody_sat c hmax hl _ (n - 2) (hpv (by omega)) ((s.next c).enter (d + 1)) x hx (by have := hx.m_le; omega)
       · intro s2 h2
         have h3 := PS.expectOp_le c hmax s2 ']'
         exact .ok ⟨h1.trans (h2.trans h3), fun _ => by have := h2.m_le; have := h3.m_le; omega⟩
@@ -226,7 +234,7 @@ theorem seriesBody_sat (hl : c.listBreaks = true) (hstop : StopsAtEof c.skipCond
   | true =>
     simp only [Bool.not_true, Bool.false_eq_true, if_false]
     have hplt := ht.2.1 rfl
-    refine (parseValue_spec c hmax hl fuel p (by omega)).bind ?_
+    refine (parseValue_spec c hmax hl fuel 0 p (by omega)).bind ?_
     intro p2 ⟨hle2, _⟩
     have hm2 := hle2.m_le
     refine (skipErrStmt_spec c hmax hstop hgo fuel p2 (by omega)).bind ?_
@@ -284,8 +292,8 @@ namespace PubModel.C08
 
 /-! ## `parseListEntries` without its `InError` break diverges at EOF -/
 
-theorem parseValue_atEof (c : Cfg) (n : Nat) (s : PS) (hs : s.AtEof) :
-    parseValue c (n + 1) s = .ok (s.errHere c "jsonx.expectOperand") := by
+theorem parseValue_atEof (c : Cfg) (n d : Nat) (s : PS) (hs : s.AtEof) :
+    parseValue c (n + 1) d s = .ok (s.errHere c "jsonx.expectOperand") := by
   have hk := hs.1
   unfold parseValue
   simp [PS.see, PS.seeOp, hk]
@@ -294,8 +302,8 @@ theorem entrySep_atEof_jail (c : Cfg) (s : PS) (hs : s.AtEof) (hj : s.pe.jail = 
     s.entrySep c o = s := by
   simp [PS.entrySep, PS.seeOp, PS.expectOp, PS.inError, hs.1, hj]
 
-theorem listLoop_no_break_diverges (c : Cfg) (hl : c.listBreaks = false) (n : Nat) :
-    ∀ k s, s.AtEof → loopB (fun s => !s.seeOp ']') (listBody c (parseValue c n)) k s = .outOfFuel := by
+theorem listLoop_no_break_diverges (c : Cfg) (hl : c.listBreaks = false) (n d : Nat) :
+    ∀ k s, s.AtEof → loopB (fun s => !s.seeOp ']') (listBody c (parseValue c n d)) k s = .outOfFuel := by
   intro k
   induction k with
   | zero => intro s _; rfl
@@ -309,7 +317,7 @@ theorem listLoop_no_break_diverges (c : Cfg) (hl : c.listBreaks = false) (n : Na
     | succ m =>
       have hs' : (s.errHere c "jsonx.expectOperand").AtEof := hs
       have hj : (s.errHere c "jsonx.expectOperand").pe.jail = true := PS.errAt_jail c s _ _
-      simp only [listBody, parseValue_atEof c m s hs, Res.bind, entrySep_atEof_jail c _ hs' hj, hl,
+      simp only [listBody, parseValue_atEof c m d s hs, Res.bind, entrySep_atEof_jail c _ hs' hj, hl,
         Bool.false_and, Bool.not_false]
       exact ih _ hs'
 
